@@ -92,6 +92,7 @@ func newPage(offset int64) *page {
 		p.offset = offset
 		p.length = 0
 		p.ref()
+		verifPoisonPage(p)
 	} else {
 		p = &page{
 			refc:   1,
